@@ -91,9 +91,12 @@ def ctor_strategy(name):
 
 def call_strategy(name, codes):
     if name == "webvtt":
-        return st.sampled_from([{}, {}] + [{"lang": c} for c in codes])
+        # (also a language the set does not have, and a code spelled in another case)
+        return st.sampled_from([{}, {}] + [{"lang": c} for c in codes] + [{"lang": "zz"}] +
+                               [{"lang": c.lower()} for c in codes[:1]])
     if name.startswith("dfxp"):
-        return st.sampled_from([{}, {}] + [{"force": c} for c in codes] + [{"force": "zz"}])
+        return st.sampled_from([{}, {}] + [{"force": c} for c in codes] + [{"force": "zz"}] +
+                               [{"force": c.upper()} for c in codes[:1]])
     return st.just({})
 
 
